@@ -128,4 +128,53 @@ def safeLoc : List Char → Bool
   | '/' :: rest => !rest.any isCtl
   | _ => false
 
+/-! ### the federated login as a history of requests (cmd/keymasterd/auth_oauth2.go)
+
+`/auth/oauth2/login` parks `getLoginDestination(r)` under a fresh cookie value together with a
+fresh state string (whatever cookie the browser presents); `/auth/oauth2/callback` looks the
+presented cookie up, compares the state, deletes the entry and redirects to the parked
+destination (the profile page when it is empty). Fresh random strings are modelled by a counter. -/
+
+structure Pending where
+  cookie : Nat
+  st : Nat
+  dest : List Char
+deriving DecidableEq, Repr
+
+structure Flow where
+  next : Nat
+  pend : List Pending
+
+inductive FStep
+  /-- begin with this `login_destination` form value (`[]`: none) -/
+  | begin (dest : List Char)
+  /-- callback presenting this state parameter and this cookie value -/
+  | callback (st cookie : Nat)
+
+def Flow.init : Flow := ⟨0, []⟩
+
+def findPending (c : Nat) : List Pending → Option Pending
+  | [] => none
+  | p :: ps => if p.cookie = c then some p else findPending c ps
+
+def callbackDest (d : List Char) : List Char := if d = [] then profilePath else d
+
+/-- one request of the flow; the second component is the `Location` the callback emits
+(`none`: the request was refused, or it was a begin — that one goes to the configured IdP).
+`parseOK` is the `url.Parse` oracle of `location`. -/
+def fstep (parseOK : List Char → Bool) (s : Flow) : FStep → Flow × Option (List Char)
+  | .begin d => (⟨s.next + 1, ⟨s.next, s.next, filter d⟩ :: s.pend⟩, none)
+  | .callback st c =>
+    match findPending c s.pend with
+    | none => (s, none)
+    | some p =>
+      if p.st ≠ st then (s, none)
+      else (⟨s.next, s.pend.filter (fun q => q.cookie ≠ c)⟩,
+            some (location (parseOK (callbackDest p.dest)) (callbackDest p.dest)))
+
+/-- everything a history of requests makes the callback emit -/
+def frun (parseOK : List Char → Bool) : Flow → List FStep → List (Option (List Char))
+  | _, [] => []
+  | s, x :: xs => (fstep parseOK s x).2 :: frun parseOK (fstep parseOK s x).1 xs
+
 end KM.LoginDest
